@@ -117,7 +117,8 @@ def run(ctx) -> None:
         # every path that enters the acquire loop and reaches the body passes it
         # the branch taken right after the lock was obtained (`if node.lock_acquired:` inside the acquire loop) must pass the
         # announcement on every path to the body
-        got = [n for n in g.nodes if n.kind == "test" and norm(n.ast) == f"{bpar}.lock_acquired"]
+        got = [n for n in g.nodes if n.kind == "test" and norm(n.ast) == f"{bpar}.lock_acquired" and nodes
+               and all(g.edge_dominates(n.id, "T", x.id) for x in nodes)]
         if good and got:
             p = g.search([(got[0].id, "T")], lambda n: n.id == b.id, blocked=lambda n: any(n.id == x.id for x in nodes))
             good = p is None
@@ -141,7 +142,7 @@ def run(ctx) -> None:
     ok = bool(comp)
     for c in comp:
         p = g.search([b.id], lambda n, c=c: n.id == c.id, blocked_edge=lambda s, d, l: g.nodes[s].kind == "test"
-                     and norm(g.nodes[s].ast) == f"not {bpar}.block_ended" and l == "F")
+                     and norm(g.nodes[s].ast) == f"{bpar}.block_ended" and l == "T")
         if p is not None:
             ok = False
     if ok:
